@@ -397,7 +397,7 @@ def determinism(binp, cfg, work, args, seed, tier):
     for scn in cfg["scenarios"]:
         variants = []
         procs = []
-        for rep, gmp in enumerate([1, 1, 4, 4, 16, 16]):
+        for rep, gmp in enumerate([1] * 10 + [4] * 10 + [16] * 10):
             job = {"property": args.prop, "scenario": scn["name"], "tier": tier, "base_seed": seed, "runs": k,
                    "seconds": 0, "dumplogs": 1, "known": [{"id": "all", "class": "", "detail": ""}],
                    "params": scn.get("params", {}).get(tier, {})}
